@@ -1041,7 +1041,7 @@ class SymCtx:
             elif r == "unknown":
                 self.unknown += 1
         if pos is None:
-            raise Abort("constant-false requirement")
+            return      # constant-false obligation: recorded above, nothing to assume
         ex.assume(pos)
 
     def fail(self, label):
